@@ -98,7 +98,7 @@ fn run_sequence_tsi(w: u8, tsi: u64, init_name: &str, init: Option<u128>, ops: &
                     n_alloc += 1;
                     if let Some(x) = m.check_new(v, "allocate_toi", init_name, &trace) {
                         viol.push(x);
-                        return (viol, n_alloc, n_pk);
+                        { std::mem::forget(std::mem::take(&mut handles)); return (viol, n_alloc, n_pk); }
                     }
                     handles.push(h);
                 }
@@ -136,14 +136,14 @@ fn run_sequence_tsi(w: u8, tsi: u64, init_name: &str, init: Option<u128>, ops: &
                                     if v != t {
                                         viol.push(Violation::new("toi_handle_mismatch", format!("add_object returned {} for an object carrying handle {}", t, v)).with("width", w as u64).with("initial", init_name)
                                             .witness(json!({"operations": trace})));
-                                        return (viol, n_alloc, n_pk);
+                                        { std::mem::forget(std::mem::take(&mut handles)); return (viol, n_alloc, n_pk); }
                                     }
                                 }
                                 None => {
                                     n_alloc += 1;
                                     if let Some(x) = m.check_new(t, "add_object", init_name, &trace) {
                                         viol.push(x);
-                                        return (viol, n_alloc, n_pk);
+                                        { std::mem::forget(std::mem::take(&mut handles)); return (viol, n_alloc, n_pk); }
                                     }
                                 }
                             }
@@ -174,7 +174,7 @@ fn run_sequence_tsi(w: u8, tsi: u64, init_name: &str, init: Option<u128>, ops: &
                         viol.push(Violation::new("toi_on_wire_differs", format!("objects were given TOIs {:?} but the packets carry TOIs {:?}", want, wire))
                             .with("width", w as u64).with("initial", init_name).with("wire_truncated", want.iter().any(|v| *v > maxv(112)))
                             .witness(json!({"operations": trace})));
-                        return (viol, n_alloc, n_pk);
+                        { std::mem::forget(std::mem::take(&mut handles)); return (viol, n_alloc, n_pk); }
                     }
                     // FDT listing
                     let mut listed: BTreeSet<u128> = BTreeSet::new();
@@ -189,7 +189,7 @@ fn run_sequence_tsi(w: u8, tsi: u64, init_name: &str, init: Option<u128>, ops: &
                     if !want.is_subset(&listed) {
                         viol.push(Violation::new("toi_in_fdt_differs", format!("objects were given TOIs {:?} but the FDT lists {:?}", want, listed))
                             .with("width", w as u64).with("initial", init_name).witness(json!({"operations": trace})));
-                        return (viol, n_alloc, n_pk);
+                        { std::mem::forget(std::mem::take(&mut handles)); return (viol, n_alloc, n_pk); }
                     }
                     if sender.nb_objects() == 0 {
                         for t in objects.drain(..) {
@@ -457,6 +457,10 @@ fn main() {
                     let h = util::with_budget(5_000_000, || sender.allocate_toi());
                     if let Some(x) = m.check_new(h.get(), "allocate_toi", "wrap", &[format!("allocation #{} with {} live handles", k, q.len())]) {
                         viol.push(x);
+                        // two handles now carry the same value: releasing both is not something the allocator has to
+                        // survive (a panic inside Drop while another handle unwinds aborts the process) - leak them
+                        std::mem::forget(h);
+                        std::mem::forget(std::mem::take(&mut q));
                         break;
                     }
                     q.push_back(h);
